@@ -538,6 +538,16 @@ static void do_op(char** w, int n) {
     fprintf(o, "ret=%d", r);
     if (type_of(out) is String) { fputs(" s=", o); fputhex(o, c_str(out), strlen(c_str(out))); }
   }
+  else if (OP("printb")) {                /* like print, but the format text lives in ONE buffer that every printb reuses
+                                          ** (a caller that builds its formats in a scratch buffer) */
+    static char fmtbuf[4096];
+    var out = arg(w[1]); int pos = atoi(w[2]); size_t fl = 0; char* f0 = (char*)keep(unhex(w[3], &fl));
+    if (fl >= sizeof fmtbuf) { harness_bug("printb: format too long"); }
+    memcpy(fmtbuf, f0, fl); fmtbuf[fl] = 0;
+    int r = print_to_with(out, pos, fmtbuf, arg_tuple(w + 4, n - 4));
+    fprintf(o, "ret=%d", r);
+    if (type_of(out) is String) { fputs(" s=", o); fputhex(o, c_str(out), strlen(c_str(out))); }
+  }
   else if (OP("look")) {                  /* look %dst A pos */
     var d = arg(w[1]); int r = look_from(d, arg(w[2]), atoi(w[3]));
     fprintf(o, "ret=%d v=", r); repr(d, 0);
